@@ -49,6 +49,9 @@ RULES = {
     "R9": "panic-family macro with format arguments -> same macro without the formatted message",
     "R10": "type alias / `Self::X` assoc-type path spelled out",
     "R12": "one-line forwarding over a generic SliceIndex (`impl Index for Bytes`, `Bytes::subset`) inlined at the call site: `b[i]` -> `b.data[i]`, `b.subset(r)` -> `Bytes::new(&b.data[r], b.version)`",
+    "R13": "std associated constant read through a prelude wrapper whose body is exactly that constant (`f64::NEG_INFINITY` -> `w_f64_neg_infinity()`)",
+    "R15": "closure parameter pattern moved into a let-binding: `|(a, b)| e` -> `|p| { let (a, b) = p; e }` (Verus accepts only variable parameters; the replacement text may carry the closure's ghost contract)",
+    "R16": "`if c { continue; } rest` at the top level of a for-loop body written as `if c { } else { rest }` (Verus for-loops do not support `continue`)",
     "R11": "`const X: T = e;` written in Verus's exec-const form `exec const X: T ensures .. { e }` (same initializer expression)",
 }
 
@@ -228,7 +231,7 @@ class Extractor:
         # erase check: chunk source ranges tile [a,b) exactly; src chunks are verbatim
         pos = region.a
         for c in chunks:
-            if c["kind"] == "ins":
+            if c["kind"] in ("ins", "rw-ins"):
                 if c["a"] != pos:
                     raise ExtractError("extract-error", "erase check: insertion not at cursor")
                 continue
@@ -240,7 +243,7 @@ class Extractor:
         if pos != region.b:
             raise ExtractError("extract-error", "erase check: region not covered")
         # token-level erase check: tokens(generated minus ins, rw/drop reverted) == tokens(source)
-        reverted = "".join((c["orig"] if c["kind"] in ("rw", "drop") else c["text"]) for c in chunks if c["kind"] != "ins")
+        reverted = "".join((c["orig"] if c["kind"] in ("rw", "drop") else c["text"]) for c in chunks if c["kind"] not in ("ins", "rw-ins"))
         if [t.text for t in tokenize(reverted)] != [t.text for t in tokenize(region.sf.text[region.a:region.b])]:
             raise ExtractError("extract-error", "erase check: token stream differs")
         self.regions_checked += 1
@@ -249,6 +252,9 @@ class Extractor:
     def emit_region(self, region, fnrec=None):
         chunks = self.render_region(region)
         for c in chunks:
+            if c["kind"] == "rw-ins":
+                self.emit(c["text"])
+                continue
             if c["kind"] == "ins":
                 start = self.line
                 txt = c["text"]
@@ -297,6 +303,8 @@ class Extractor:
                         i += 1
                         continue
                     raise ExtractError("extract-error", f"{path}:{i+1}: stray text inside //@fn (missing //@end?)")
+                if self.impl and not self.impl_open_emitted and s != "" and not s.startswith("//"):
+                    self.flush_impl_header()
                 self.emit(ln + "\n")
                 i += 1
                 continue
@@ -381,11 +389,34 @@ class Extractor:
             elif cmd == "fn":
                 close_fn()
                 self.flush_impl_header()
-                m = re.match(r"(\w+)(?:\s*->\s*(\w+))?(?:\s+#(\d+))?\s*$", arg)
+                m = re.match(r"([\w/]+)(?:\s*->\s*(\w+))?(?:\s+#(\d+))?\s*$", arg)
                 if not m:
                     raise ExtractError("extract-error", f"{where}: bad //@fn")
                 name, ret, nth = m.group(1), m.group(2), int(m.group(3) or 1)
-                if self.impl:
+                if "/" in name:
+                    # nested fn: outer/inner (an fn item declared inside the body of a free fn of the file)
+                    outer, inner = name.split("/", 1)
+                    oc = [x for x in self.sf.items if x.kind == "fn" and x.name == outer]
+                    if not oc or oc[0].body_open < 0:
+                        raise ExtractError("lost-anchor", f"{where}: outer fn `{outer}` not found in {self.sf.rel}")
+                    o = oc[0]
+                    toks, brk = self.sf.toks, self.sf.brk
+                    cands = []
+                    k = o.body_open + 1
+                    while k < o.last:
+                        if toks[k].kind == "ident" and toks[k].text == "fn" and toks[k + 1].text == inner:
+                            j = k + 2
+                            while toks[j].text != "{":
+                                if toks[j].text in ("(", "["):
+                                    j = brk[j]
+                                j += 1
+                            cands.append(rstok.Item("fn", inner, k, k, j, brk[j], [], norm(toks[k:j])))
+                            k = brk[j]
+                        k += 1
+                    owner = ""
+                    name = inner
+                    nested_of = outer
+                elif self.impl:
                     cands = [x for x in self.impl["members"] if x.kind == "fn" and x.name == name]
                     owner = self.impl["hdr"]
                 else:
@@ -396,6 +427,8 @@ class Extractor:
                 it = cands[nth - 1]
                 cur_fn = dict(kind="fn", item=it, sf=self.sf, ret=ret, ins=[], rws=[], where=where, opts=[],
                               path=f"{self.sf.rel}::{owner + ' :: ' if owner else ''}{name}", impl=owner, name=name, assume=assume)
+                if "/" in m.group(1):
+                    cur_fn["path"] = f"{self.sf.rel}::{m.group(1)}"
             elif cmd == "rw":
                 parts, rest = parse_backticks(arg)
                 r = rest.split()
@@ -414,6 +447,12 @@ class Extractor:
             elif cmd == "tail":
                 txt, i = payload(i)
                 cur_fn["ins"].append(("tail", arg.strip(), 1, txt, where))
+            elif cmd == "continue-to-else":
+                cur_fn["ins"].append(("cont2else", int(arg), 1, "", where))
+            elif cmd == "tailof":
+                parts, rest = parse_backticks(arg)
+                txt, i = payload(i)
+                cur_fn["ins"].append(("tailof", (parts[0], rest.strip()), 1, txt, where))
             elif cmd in ("loop", "loopstart", "loopend"):
                 txt, i = payload(i)
                 cur_fn["ins"].append((cmd, int(arg), 1, txt, where))
@@ -470,6 +509,11 @@ class Extractor:
             self.apply_rw(reg, it.first, it.last, rule, None, frm, to, f["where"])
         for (rule, count, frm, to, where) in f["rws"]:
             self.apply_rw(reg, it.first, it.last, rule, count, frm, to, where)
+        if f["kind"] == "item" and "pubfields" in f["opts"]:
+            # the item itself becomes pub as well (D-vis)
+            has_pub = any(toks[q].text == "pub" for q in range(first_tok, it.kw))
+            if not has_pub:
+                reg.add(toks[it.kw].start, toks[it.kw].start, "pub ", "ins", "D-vis")
         if f["kind"] == "item" and "pubfields" in f["opts"] and it.body_open >= 0:
             # insert `pub ` before each field that is not already pub (struct with named fields)
             k = it.body_open + 1
@@ -577,40 +621,91 @@ class Extractor:
                 reg.add(toks[it.last].start, toks[it.last].start, "\n" + txt, "ins", "atend")
             elif kind == "atstart":
                 reg.add(toks[body_open].end, toks[body_open].end, "\n" + txt, "ins", "atstart")
-            elif kind == "tail":
+            elif kind in ("tail", "tailof"):
                 # name the value of the tail expression: `let <name> = <tail>; <payload> <name>` (insertions only)
-                k = body_open + 1
-                start = body_open + 1
-                while k < it.last:
+                blk_open, blk_close = body_open, it.last
+                if kind == "tailof":
+                    anchor, arg = arg
+                    pt = tokenize(anchor)
+                    hits = find_seq(toks, it.first, it.last + 1, pt)
+                    if not hits:
+                        raise ExtractError("lost-anchor", f"{where}: anchor `{anchor}` not found in {f['path']}")
+                    # innermost block containing the anchor
+                    k = hits[0]
+                    depth = 0
+                    while k > body_open:
+                        k -= 1
+                        if toks[k].text in (")", "]", "}"):
+                            k = brk[k]
+                        elif toks[k].text == "{":
+                            break
+                    blk_open, blk_close = k, brk[k]
+                k = blk_open + 1
+                start = blk_open + 1
+                while k < blk_close:
                     if toks[k].text in ("(", "[", "{"):
                         k = brk[k] + 1
                         continue
                     if toks[k].text == ";":
                         start = k + 1
                     k += 1
+                it_last_save = it.last
+                class _L: pass
                 # skip block-like statements (for/while/loop/if/match) that precede the tail expression
-                while start < it.last and toks[start].kind == "ident" and toks[start].text in ("for", "while", "loop", "if", "match"):
+                while start < blk_close and toks[start].kind == "ident" and toks[start].text in ("for", "while", "loop", "if", "match"):
                     k2 = start + 1
-                    while k2 < it.last and toks[k2].text != "{":
+                    while k2 < blk_close and toks[k2].text != "{":
                         if toks[k2].text in ("(", "["):
                             k2 = brk[k2]
                         k2 += 1
                     endb = brk[k2]
-                    while endb + 1 < it.last and toks[endb + 1].text == "else":
+                    while endb + 1 < blk_close and toks[endb + 1].text == "else":
                         k2 = endb + 2
-                        while k2 < it.last and toks[k2].text != "{":
+                        while k2 < blk_close and toks[k2].text != "{":
                             if toks[k2].text in ("(", "["):
                                 k2 = brk[k2]
                             k2 += 1
                         endb = brk[k2]
-                    if endb + 1 >= it.last:
+                    if endb + 1 >= blk_close:
                         break
                     start = endb + 1
-                if start >= it.last:
+                if start >= blk_close:
                     raise ExtractError("lost-anchor", f"{where}: fn {f['path']} has no tail expression")
                 nm = arg.split(":")[0].strip()
                 reg.add(toks[start].start, toks[start].start, f"let {arg} = ", "ins", "tail-name")
-                reg.add(toks[it.last].start, toks[it.last].start, ";\n" + txt + f"\n{nm}\n", "ins", "tail")
+                reg.add(toks[blk_close].start, toks[blk_close].start, ";\n" + txt + f"\n{nm}\n", "ins", "tail")
+            elif kind == "cont2else":
+                if loops is None:
+                    loops = find_loops(toks, brk, body_open + 1, it.last)
+                if arg > len(loops):
+                    raise ExtractError("lost-anchor", f"{where}: loop {arg} not found in {f['path']}")
+                kwi, bi = loops[arg - 1]
+                ce = brk[bi]
+                # find `continue ; }` at nesting depth 1 inside the loop body (inside a top-level `if`)
+                k = bi + 1
+                hit = None
+                while k < ce:
+                    if toks[k].text == "continue" and toks[k + 1].text == ";" and toks[k + 2].text == "}":
+                        # the enclosing block must be a direct child of the loop body
+                        ob = brk[k + 2]
+                        # check depth: walk back from ob to bi counting unmatched opens
+                        q = ob - 1
+                        depth = 0
+                        while q > bi:
+                            if toks[q].text in (")", "]", "}"):
+                                q = brk[q]
+                            elif toks[q].text in ("(", "[", "{"):
+                                depth += 1
+                            q -= 1
+                        if depth == 0:
+                            hit = k
+                            break
+                    k += 1
+                if hit is None:
+                    raise ExtractError("lost-anchor", f"{where}: no top-level `if .. {{ continue; }}` in loop {arg} of {f['path']}")
+                reg.add(toks[hit].start, toks[hit + 2].end, "} else {", "rw", "R16")
+                self.log.append(dict(rule="R16", file=sf.rel, line=sf.line_of(toks[hit].start), before="continue; }", after="} else {"))
+                reg.add(toks[ce].start, toks[ce].start, "}\n", "rw-ins", "R16")
             elif kind in ("loop", "loopstart", "loopend"):
                 if loops is None:
                     loops = find_loops(toks, brk, body_open + 1, it.last)
